@@ -36,7 +36,11 @@ RULE = ('noise-free images I(x,y)=f(elliptical radius), f in {Sersic n 0.7-4, Ga
         'class polar = EllipseGeometry.to_polar/radius on random + degenerate points (centre, axes, integer pixels). '
         'non-trivial = fit with >=5 isophotes judged against truth or fixed values / >=3 converged single fits / '
         '>=3 samples / >=500 to_polar points; distinct by digest of image + start geometry + keywords')
-CLASSES = ['repr', 'sample', 'polar', 'degenerate', 'single'] + gen.FIT_CLASSES
+# order: the 8 quick shards start at classes 0..7 (expensive ones), the cheap classes come last, so that every class
+# is reached within ~10 cases per shard even on a heavily loaded machine
+CLASSES = ['area', 'free', 'offcentre', 'nearest', 'linear', 'repr', 'fixed', 'truth_start',
+           'geo_step', 'fix_noniter', 'eps_edge', 'controls', 'pa_edge', 'single', 'degenerate', 'sample', 'polar']
+assert sorted(CLASSES) == sorted(gen.FIT_CLASSES + ['polar', 'sample', 'single', 'repr', 'degenerate'])
 MUST_REACH = ['photutils.isophote.ellipse:Ellipse.fit_image',
               'photutils.isophote.ellipse:Ellipse.fit_isophote',
               'photutils.isophote.fitter:EllipseFitter.fit',
@@ -95,7 +99,8 @@ BIG_VALUES = 1.0e7
 def plan(tier):
     if tier == 'thorough':
         return dict(shards=16, cases=17 * 22, timeout=3000, budget_s=840)
-    return dict(shards=8, cases=42, timeout=900, budget_s=70)
+    # PV_C20_BUDGET: wall budget override for verification runs on an oversubscribed machine (never a verdict)
+    return dict(shards=8, cases=42, timeout=900, budget_s=float(os.environ.get('PV_C20_BUDGET', 70)))
 
 
 # ================================================================================================
@@ -269,7 +274,9 @@ def _fixed_exact(case, spec, isos, init, mech):
             if bad[k] is not None:
                 d = abs(bad[k]['obs'] - bad[k]['exp'])
                 mk['delta'] = ('rounding' if d < 1e-12 else
-                               'quarter_turn' if (k == 'pa' and abs(d - math.pi / 2) < 1e-9) else 'other')
+                               'quarter_turn' if (k == 'pa' and abs(d - math.pi / 2) < 1e-9) else
+                               'half_turn' if (k == 'pa' and abs(d - math.pi) < 1e-9) else
+                               'three_quarter_turn' if (k == 'pa' and abs(d - 1.5 * math.pi) < 1e-9) else 'other')
             case.check(bad[k] is None, 'fixed_parameter_exact', mk, first_bad=bad[k])
     case.note('isophotes_checked_fixed', n)
     return n
@@ -501,7 +508,12 @@ def _structure(case, spec, isolist, init, mech):
     fin = all(np.all(np.isfinite(np.asarray(getattr(isolist, a), float))) for a in ('x0', 'y0', 'eps', 'pa'))
     # (an ellipse with no valid sample point - requested maxsma beyond the frame - has no intensity: docs silent)
     fin = fin and all(np.isfinite(iso.intens) for iso in isolist if iso.ndata > 0)
-    case.note('isophotes_without_data', sum(1 for iso in isolist if iso.ndata == 0))
+    empty = [iso for iso in isolist if iso.ndata == 0]
+    case.note('isophotes_without_data', len(empty))
+    codes_e = sorted({int(iso.stop_code) for iso in empty})
+    case.check(not any(iso.valid for iso in empty), 'valid_isophotes_have_data',
+               dict(mech, empty_isophote_stop_code=codes_e[0] if len(codes_e) == 1 else 'mixed'),
+               sma=[iso.sma for iso in empty][:5], stop_codes=codes_e)
     case.check(fin, 'isolist_values_finite', mech)
     codes = [int(iso.stop_code) for iso in isolist]
     case.check(all(c in (0, 1, 2, 3, 4, 5) for c in codes), 'stop_code_documented', mech, codes=codes)
@@ -549,6 +561,8 @@ def _model(case, spec, img, isolist, mech, recover_ok):
     big = (step > 1.5) if linear else (step > 0.2)
     hh = False        # default arguments only: the statement is about build_ellipse_model(shape, isolist)
     mm = dict(mech, pa_wraps=pa_wraps, step='big' if big else 'small')
+    if any(iso.ndata == 0 for iso in isolist):
+        mm['list_has_isophote_without_data'] = True      # (NaN intensity in the list: recorded separately)
     ok, model = _lib(case, dict(mm, op='build_ellipse_model'), build_ellipse_model, img.shape, isolist,
                      high_harmonics=hh)
     if not ok:
